@@ -260,6 +260,23 @@ def api_calls(version, vlevel):
                                       g.segment(seg).validate_field("xt"),
                                       g.segment(seg).validate())))
   if version == "gfa2":
+    # a fragment is filed under its external sequence, not under a name
+    FR = lambda g: g.fragments[0]
+    menu += [
+        ("fragment-external;rm", lambda g, s: (lambda f: (
+            swallow(lambda: f.set("external", gfapy.OrientedLine(s, "+"))),
+            str(g), swallow(lambda: g.rm(f)), str(g),
+            swallow(g.validate)))(FR(g))),
+        ("fragment-external-str;rm-segment", lambda g, s: (lambda f: (
+            swallow(lambda: f.set("external", s + "+")), str(g),
+            swallow(lambda: g.rm(f.sid.name if hasattr(f.sid, "name")
+                                 else f.sid)),
+            str(g), swallow(g.validate)))(FR(g))),
+        ("fragment-external;fragments_for_external", lambda g, s: (lambda f: (
+            swallow(lambda: f.set("external", gfapy.OrientedLine(s, "-"))),
+            g.fragments_for_external(s), str(g),
+            swallow(f.disconnect), str(g)))(FR(g))),
+    ]
     # documented in doc/tutorial/references.rst, "Adding and removing group
     # elements", on connected and on stand-alone group lines
     O = lambda g: g.line("o1")
